@@ -980,7 +980,8 @@ DIFF_PARTIAL = ["proved: (i) every coefficient's symbolic derivative is its deri
                 "relaxation intervals and shifts (`C03Prog.hessian_exact`); the diagonal pair (a, a), one variable driving all parameters "
                 "non-linearly, for RF pulses (`T_diag_partial_exact_nl`) and relaxation intervals (`E_diag_partial_exact_nl`), "
                 "lifted to whole programs of pulses, relaxation intervals and shifts (`C03Diag.hessian_diag_exact` with `step1T`, "
-                "`step1E`, `step1Shift`); precession intervals: `P_mixed_partial_exact_nl` and the program step `stepP` (so "
+                "`step1E`, `step1Shift`; `C03PRDiag`: `P_diag_partial_exact_nl`, `R_diag_partial_exact_nl`, `Phi_diag_partial_exact_nl` with "
+                "the program steps `step1P`, `step1R`); precession intervals: `P_mixed_partial_exact_nl` and the program step `stepP` (so "
                 "`hessian_exact` covers programs of pulses, relaxation, precession, phase offsets and shifts: `Phi_mixed_partial_exact_nl`, "
                 "`stepPhi`; R with real parameters: `R_mixed_zero`, `R_mixed_partial_exact_nl`, `stepR`). Not stated as theorems: R with a "
                 "complex rT (known finding F20: the bookkeeping is real-linear); exercised by the "
@@ -1201,7 +1202,7 @@ PROPS["C09"] = {
 EXTRA_MODULES = {
     "C01": ["EpgVerif.Tie.ApplySites"],
     "C02": ["EpgVerif.Tie.DiffSites", "EpgVerif.Props.C02Run", "EpgVerif.Props.C02Fam"],
-    "C03": ["EpgVerif.Tie.DiffSites", "EpgVerif.Props.C03Run", "EpgVerif.Props.C03Gen", "EpgVerif.Props.C03E", "EpgVerif.Props.C03Prog", "EpgVerif.Props.C03Diag", "EpgVerif.Props.C03EDiag", "EpgVerif.Props.C03P", "EpgVerif.Props.C03Phi", "EpgVerif.Props.C03R", "EpgVerif.Props.C03All"],
+    "C03": ["EpgVerif.Tie.DiffSites", "EpgVerif.Props.C03Run", "EpgVerif.Props.C03Gen", "EpgVerif.Props.C03E", "EpgVerif.Props.C03Prog", "EpgVerif.Props.C03Diag", "EpgVerif.Props.C03EDiag", "EpgVerif.Props.C03P", "EpgVerif.Props.C03Phi", "EpgVerif.Props.C03R", "EpgVerif.Props.C03All", "EpgVerif.Props.C03PRDiag"],
     "C04": ["EpgVerif.Tie.ShiftSites", "EpgVerif.Props.C04Multi"],
     "C05": ["EpgVerif.Tie.PhysSites", "EpgVerif.Props.C05Path", "EpgVerif.Props.C05Att"],
     "C06": ["EpgVerif.Tie.PhysSites", "EpgVerif.Tie.Exchange"],
